@@ -23,6 +23,26 @@ def H1(u):
         return T(901, u)
     return T(902)
 
+class Q(object):
+    """a container that is falsy while it is empty"""
+    def __init__(self):
+        self.items = []
+
+    def __len__(self):
+        return len(self.items)
+
+    def push(self, x=0):
+        if D(906, x):
+            self.items.append(T(907, x))
+        return len(self.items)
+
+    def drain(self):
+        t = 0
+        while self.items:
+            t = T(908, t, self.items.pop())
+        return t
+
+
 def H2(u, v=3):
     while D(903):
         u = T(904, u, v)
@@ -641,6 +661,8 @@ def check(run):
         ('return-raises', progs.Opts(loop_else=False, reads='safe', max_stmts=12, max_depth=4, fresh_for_targets=True, mutation=True,
                                      raising_return=True, append=False,
                                      only={'if', 'try', 'return', 'retattr', 'expr', 'while', 'for', 'attr'}), 0.12),
+        # bound methods of an object that is falsy at the time of the call (converted recursively)
+        ('methods', progs.Opts(loop_else=False, reads='safe', max_stmts=10, fresh_for_targets=True, methods=True, try_=False, with_=False), 0.08),
         # lambdas stored in variables and called later (closure variables are read late)
         ('lambda-closures', progs.Opts(loop_else=False, reads='safe', max_stmts=12, fresh_for_targets=True, lambda_closures=True,
                                        try_=False, with_=False), 0.1),
